@@ -36,6 +36,15 @@ def run_uniform(case, ctx, mon):
     if fam == "hh":
         cfg["max_key_len"] = 24
     pr = state.NativeProber(cfg)
+    pr.via = case.get("via", "add")
+    if pr.via == "ndarray":
+        try:
+            pr.cells(b"probe")
+        except TypeError:
+            mon.count("ndarray_of_keys_refused_by_this_tree")
+            mon.nontrivial(True)
+            return
+        pr.cache.clear()
     rng = np.random.default_rng(case["seed"])
     cols = np.zeros((n, d), np.int64)
     seen = set()
@@ -47,6 +56,8 @@ def run_uniform(case, ctx, mon):
     while i < n:
         ln = int(rng.integers(lo, hi + 1))
         k = rng.bytes(ln)
+        if pr.via == "ndarray" and (k.endswith(b"\x00") or not k):
+            continue  # NumPy's S dtype cannot represent trailing NULs or distinguish the empty key
         if k in seen:
             continue
         seen.add(k if ln <= 64 else hash(k))
@@ -76,6 +87,7 @@ def run_uniform(case, ctx, mon):
             mon.count("row_pairs_tested")
             mon.seen("row_pair", f"{fam}:{a}-{b}")
     mon.count("uniform_cases")
+    mon.seen("probed_via", pr.via)
     mon.seen("key_length_class", "1..24" if hi <= 24 else ("25..300" if hi <= 300 else ("301..2000" if hi <= 2000 else ">=4096")))
     mon.seen("family", fam)
     mon.nontrivial(d >= 2)
@@ -189,6 +201,12 @@ def gen_cases(ctx):
             fam = [f for f in fams if f != "hh"][(j + rep) % 3] if kl[1] > 255 else fams[(j + rep) % 4]
             yield {"type": "uniform", "family": fam, "width": 16, "depth": 8, "n_keys": 8000 if kl[1] < 2000 else 5000, "key_len": list(kl),
                    "seed": int(rng.integers(0, 2**62))}
+        # cell ownership read through every entry point that adds a key (each may hash for itself)
+        for j, via in enumerate(("ulist", "udict", "ngram", "ndarray")):
+            yield {"type": "uniform", "family": fams[(j + rep) % 3], "width": 16, "depth": 8, "n_keys": 20000, "via": via,
+                   "key_len": [1, 8] if via == "ndarray" else [1, 24], "seed": int(rng.integers(0, 2**62))}
+        if rep == 0:
+            yield {"type": "uniform", "family": "linear", "width": 16, "depth": 8, "n_keys": 20000, "via": "ndarray", "key_len": [1, 8], "seed": int(rng.integers(0, 2**62))}
         for fam in fams:
             yield {"type": "collide", "family": fam, "width": 32, "depth": 8, "pairs": 12 if q else 40, "seed": int(rng.integers(0, 2**62))}
         for w in (32, 64, 128):
@@ -213,6 +231,7 @@ def replay(case, ctx, mon):
 def floors(mon, ctx):
     mon.floor("row pairs of a depth-8 linear sketch", len([x for x in mon.classes["row_pair"] if x.startswith("linear:")]), 28)
     mon.floor("families probed", len(mon.classes["family"]), 4)
+    mon.floor("entry points through which cell ownership was read (add, update(list), update(dict), add_ngram)", len(mon.classes["probed_via"] - {"ndarray"}), 4)
     mon.floor("key length classes probed for uniformity and independence", len(mon.classes["key_length_class"]), 4)
     mon.floor("families probed with constructed one-row collisions", len(mon.classes["collide_family"]), 4)
     mon.floor("constructed pairs that shared the targeted row", mon.counters["constructed_pairs_sharing_the_targeted_row"], 100)
